@@ -4,7 +4,7 @@ import "time"
 
 func init() {
 	plans["C08"] = Plan{Prop: "C08", Level: "fault_enumeration",
-		Rule: "seeded schedules = job configuration (DatasetSource or UnionDatasetSource with disjoint id pools, +-LatestOnly per member, DatasetSink or HttpDatasetSink->loopback, incremental / fullsync / both triggers, batch size 1..7, same or fresh job objects per run) + source writes interleaved with runs and idle re-runs. Each schedule is executed fault-free (probe: equality after every run, idle-run no-op, measures batches per run), then once per fault (quick: one sink-400, one KillJob-from-hook, one SIGKILL-in-sub-child, at probe-measured batch indexes; thorough: every hit index x {sink 400, kill, crash} x {afterSink, afterToken | afterEndFullSync} x recovery type of the run with most batches). After a faulty run: token-vs-sink check, recovery run, equality, idle run, rest of the schedule. Case = (schedule, fault); non-trivial = the fault FIRED (measured) at a batch boundary with >=1 batch delivered before and >=1 batch pending after (batches measured by the probe)",
+		Rule: "seeded schedules = job configuration (DatasetSource or UnionDatasetSource with disjoint id pools, +-LatestOnly per member, DatasetSink or HttpDatasetSink->loopback, incremental / fullsync / both triggers, batch size 1..7, same or fresh job objects per run) + source writes interleaved with runs and idle re-runs. Each schedule is executed fault-free (probe: equality after every run, idle-run no-op, measures batches per run), then once per fault (quick: one sink-400, one KillJob-from-hook, one SIGKILL-in-sub-child, at probe-measured batch indexes; thorough: every hit index x {sink 400, kill, crash} x {afterSink, afterToken | afterEndFullSync} x recovery type of the run with most batches). After a faulty run: token-vs-sink check, recovery run, equality, idle run, rest of the schedule. Case = (schedule, fault); One extra case per run (stage bigpage): 264 entities of 100 KB enter the source in six writes and are copied with the hub's default batch size, i.e. as ONE 26 MB page, more than the store takes in one transaction (about 19 MB): the run either fails by itself (then the token-vs-sink check applies) or reports success (then equality as always); counted non-trivial when the page measured > 20 MB. Otherwise non-trivial = the fault FIRED (measured) at a batch boundary with >=1 batch delivered before and >=1 batch pending after (batches measured by the probe)",
 		Assumptions: []string{
 			"latest views are compared per entity id; a deleted entity is equivalent to an absent one (full syncs over entities never transmit content of deleted entities)",
 			"union members have disjoint id pools",
@@ -19,7 +19,11 @@ func init() {
 			if tier == "thorough" {
 				n, c = 32, 14
 			}
-			return []Stage{{Name: "jobs", Scenario: "c08jobs", Args: args, Children: n, Cases: c, Timeout: 25 * time.Minute}}
+			return []Stage{
+				{Name: "jobs", Scenario: "c08jobs", Args: args, Children: n, Cases: c, Timeout: 25 * time.Minute},
+				// ONE case, one child: a job page larger than one store transaction (26 MB of 100 KB entities that entered the source in 4.4 MB writes)
+				{Name: "bigpage", Scenario: "c08jobs", Args: "mode=bigpage", Children: 1, Cases: 1, Timeout: 10 * time.Minute},
+			}
 		},
 	}
 }
